@@ -15,6 +15,10 @@ func (k msgServer) PublishReferencePayloadLink(goCtx context.Context, msg *types
 
 	var err error
 
+	if len(msg.Key) == 0 {
+		return nil, sdkerrors.Wrap(sdkerrors.ErrInvalidRequest, "key cannot be empty")
+	}
+
 	// Check if a Payload Link was already stored at the given key
 	if !(k.checkIfPayloadLinkExists(ctx, msg.Key)) {
 		return nil, sdkerrors.Wrap(sdkerrors.ErrInvalidRequest, "data was found at the given key, cannot overwrite present payloadlinks")
